@@ -589,6 +589,13 @@ func run(c *engine.Ctx, r *engine.Report) {
 				try(kase{f.Name, []int{pos}, []string{kd}, c.Seed})
 			}
 		}
+		if !c.Thorough() {
+			// an outage rather than a blip: two consecutive calls fail (what a
+			// retry-once wrapper around a write must survive)
+			for pos := 1; pos <= n; pos++ {
+				try(kase{f.Name, []int{pos, pos + 1}, []string{kindNames[0], kindNames[0]}, c.Seed})
+			}
+		}
 		if c.Thorough() {
 			for p1 := 1; p1 <= n+1; p1++ {
 				for p2 := p1 + 1; p2 <= n+2; p2++ {
@@ -636,7 +643,7 @@ func init() {
 	engine.Register(&engine.CheckDef{
 		ID:    "C13",
 		Level: "fault_enumeration",
-		Rule: "23 flows (authorize; fetch: authorized / unauthorized / token / wrapper / re-wrapped; token creation; root rotation: empty / no-op / promote / reinit; node rotation by key id / node id; server certificates by key id / node id / after the roots were replaced; node-side NewNodeCredentials and HandleFetchNodeCredentialsResponse (node-led; token-led with a retry of the same answer on the same object after a failure); a repeated wrapper fetch on a store-once storage (both duplicate-error forms); a first-time Dial through the real listener with faults in the node's resp. the server's storage) x every storage call position of the fault-free run x {generic error, ErrNotFound, context.Canceled}; thorough adds every pair of positions x 9 kind pairs; " +
+		Rule: "23 flows (authorize; fetch: authorized / unauthorized / token / wrapper / re-wrapped; token creation; root rotation: empty / no-op / promote / reinit; node rotation by key id / node id; server certificates by key id / node id / after the roots were replaced; node-side NewNodeCredentials and HandleFetchNodeCredentialsResponse (node-led; token-led with a retry of the same answer on the same object after a failure); a repeated wrapper fetch on a store-once storage (both duplicate-error forms); a first-time Dial through the real listener with faults in the node's resp. the server's storage) x every storage call position of the fault-free run x {generic error, ErrNotFound, context.Canceled}; quick adds every pair of consecutive positions failing with the generic error, thorough every pair of positions x 9 kind pairs; " +
 			"distinct_nontrivial counts fault placements (distinct by construction) in which every injected fault was actually reached by the call",
 		Assumptions: []string{"a failing storage call has no effect (no torn writes: the Storage interface is message-granular)", "a fault that turns a refusal into a durable success is not judged here (the property allows a result that is fully reflected in storage)"},
 		Shards:      func(c *engine.Ctx) int { return 8 },
